@@ -126,6 +126,23 @@ const SUFFIXES: [&str; 12] = [
     "?k=v", "/announce?a=1&b=2&c=3", "/x.y-z_~/ann", "/announce?k=a+b",
 ];
 
+/// An announce-URL tail with a generated query: keys that are, contain, or are contained in the client's own parameter
+/// names (a tracker's `passport=`, `transport=`, `cleft=` must not be mistaken for `port=` / `left=`), repeated keys, empty values.
+fn gen_suffix(r: &mut Rng) -> String {
+    if r.chance(1, 2) {
+        return r.pick(&SUFFIXES).to_string();
+    }
+    const KEYS: [&str; 22] = [
+        "key", "passkey", "k", "passport", "transport", "cleft", "xevent", "prevent", "numwant", "port", "left", "info_hash",
+        "peer_id", "uploaded", "downloaded", "event", "compact", "a", "peer", "id", "por", "eft",
+    ];
+    const VALS: [&str; 7] = ["1", "abc123", "a+b", "abc%20def", "", "tcp", "0"];
+    let path = *r.pick(&["/announce", "/a/b/announce.php", "", "/ann"]);
+    let n = 1 + r.below(3);
+    let q: Vec<String> = (0..n).map(|_| format!("{}={}", r.pick(&KEYS), r.pick(&VALS))).collect();
+    format!("{}?{}", path, q.join("&"))
+}
+
 pub fn gen18(r: &mut Rng, n: usize, thorough: bool) -> Vec<String> {
     let mut out = vec![];
     let req_every = if thorough { 20 } else { 25 };
@@ -140,10 +157,10 @@ pub fn gen18(r: &mut Rng, n: usize, thorough: bool) -> Vec<String> {
                 _ => "rdest-\u{e9}\u{e9}\u{e9}\u{e9}\u{e9}\u{e9}\u{e9}".as_bytes().to_vec(),
             };
             let total = *r.pick(&[0u64, 1, 16384, 700_000_000, u32::MAX as u64 + 1, (1u64 << 62) + 3]);
-            out.push(format!("req {} {} {} {}", hex(r.pick(&SUFFIXES).as_bytes()), hex(&hash), hex(&id), total));
+            out.push(format!("req {} {} {} {}", hex(gen_suffix(r).as_bytes()), hex(&hash), hex(&id), total));
         } else {
             let hosts = ["http://127.0.0.1:8000", "http://tracker.example.org", "https://t.example:443", "http://[::1]:6969", "udp://t.example:80"];
-            let announce = format!("{}{}", r.pick(&hosts), r.pick(&SUFFIXES));
+            let announce = format!("{}{}", r.pick(&hosts), gen_suffix(r));
             out.push(format!("url {} {}", hex(announce.as_bytes()), hex(&hash)));
         }
     }
